@@ -11,5 +11,28 @@ TgtScalar1 == [mode |-> "scalar", v |-> [i \in 1..N |-> 1]]
 TgtList == [mode |-> "list", v |-> [i \in 1..N |-> (i - 1) % 2]]
 MaskAt0 == Mask({0}, {})
 MaskAsRev == Mask({}, {<<1, 0>>})
-Bool == {TRUE, FALSE}
+MaskAsIdx == Mask({N - 1}, {})
+
+Conf(atOn, asOn, atTol, atG, atTgt, asTol, asG, initAt, initAs) ==
+  [atOn |-> atOn, asOn |-> asOn, atTol |-> atTol, atG |-> atG, atTgt |-> atTgt,
+   asTol |-> asTol, asG |-> asG, initAt |-> initAt, initAs |-> initAs, exact |-> TRUE]
+
+(* CollapseAt(None, 1, 2) + CollapseAs(1, 1), no masks: pins at the best point, ties, pinned-and-tied parameters *)
+CBoth1   == Conf(TRUE, TRUE, Tol1, 2, TgtNone, Tol1, 1, NoMask, NoMask)
+(* tolerance 0, scalar target 1, windows 1 / 2, masks given at construction (an index; a pair in reverse orientation) *)
+CMasked  == Conf(TRUE, TRUE, Tol0, 1, TgtScalar1, Tol0, 2, MaskAt0, MaskAsRev)
+(* per-parameter target, tolerance 1/2, a single index masking every pair it occurs in *)
+CList    == Conf(TRUE, TRUE, TolHalf, 1, TgtList, TolHalf, 1, NoMask, MaskAsIdx)
+(* one condition only *)
+CAtOnly  == Conf(TRUE, FALSE, Tol0, 2, TgtNone, Tol0, 1, NoMask, NoMask)
+CAsOnly  == Conf(FALSE, TRUE, Tol0, 1, TgtNone, Tol1, 2, NoMask, NoMask)
+
+(* exact scalar target, loose ties: a pinned parameter whose partner is not pinned (same Collapse / a later one) *)
+CMix1    == Conf(TRUE, TRUE, Tol0, 1, TgtScalar1, Tol1, 1, NoMask, NoMask)
+CMix2    == Conf(TRUE, TRUE, Tol0, 1, TgtScalar1, Tol1, 2, NoMask, NoMask)
+
+ConfsQuick == {CBoth1, CMasked}
+ConfsAll == {CBoth1, CMasked, CList, CAtOnly, CAsOnly, CMix1, CMix2}
+ConfsOne == {CBoth1}
+ConfsScript == {CBoth1, CMasked, CList, CMix1, CMix2, CAtOnly}
 =============================================================================
